@@ -74,6 +74,9 @@ def correspondence(run):
         nlo, nhi = float(ice.index(ice.valid_range[0])), float(ice.index(ice.valid_range[1]))
         ns = [nlo, nhi, nlo + 0.1, nhi - 0.1] + [run.rng.uniform(nhi - 0.05, nlo + 0.05) for _ in range(10)]
         ns = [n for n in ns if abs(ice.n0 - n) >= 1e-9 and n < ice.n0]
+        # indices at and beyond the asymptote are clamped to the lower edge of the range
+        ns += [v for v in [float(ice.n0), float(np.nextafter(ice.n0, np.inf)), ice.n0 + 0.01, ice.n0 + 1.0] if v > nlo]
+        ns += [0.5, 1.0]
         reqs.append("depth %s %s" % (it, fw.fl(ns)))
         expect.append([float(ice.depth_with_index(n)) for n in ns]); descs.append((name, "depth", tuple(ns)))
         arrd = [float(v) for v in ice.depth_with_index(np.array(ns))]
@@ -215,6 +218,8 @@ def search(run, deep):
     """property-level oracle on the implementation alone"""
     n = run.scale(1, 5) if not deep else 5
     search_atten(run)
+    search_clamp(run)
+    search_layered(run)
     for rep in range(n):
         for name, ice in ices(run):
             lo, hi = ice.valid_range
@@ -243,6 +248,61 @@ def search(run, deep):
             if float(ice.index(hi + 1)) != float(ice.index_above) or float(ice.index(lo - 1)) != float(ice.index_below):
                 run.fail_input("outside", {"ice": name, "params": [ice.n0, ice.k, ice.a, lo, hi]},
                                what="index outside the valid range is not the declared index")
+
+
+def search_clamp(run):
+    """depth_with_index clamps to the range edges for indices outside the range of the ice (scalar and array),
+    including indices at and above the asymptote n0"""
+    for name, ice in ices(run):
+        lo, hi = ice.valid_range
+        nlo, nhi = float(ice.index(lo)), float(ice.index(hi))
+        # (an index equal to index(lo) is inside the range; where index(lo) rounds to n0 the inverse is -inf there,
+        #  which the property excludes as "not distinguishable from the asymptote")
+        above = [v for v in [nlo + 1e-6, nlo + 0.01, float(ice.n0), float(np.nextafter(ice.n0, np.inf)),
+                             ice.n0 + 0.3, 10.0] if v > nlo]
+        below = [nhi - 1e-6, nhi - 0.2, 0.0, -1.0]
+        run.case((name, "clamp-oracle", nlo, nhi))
+        with np.errstate(all="ignore"):
+            for vals, edge, what in ((above, lo, "above the largest index"), (below, hi, "below the smallest index")):
+                got_s = [float(ice.depth_with_index(v)) for v in vals]
+                got_a = [float(x) for x in ice.depth_with_index(np.array(vals))]
+                for v, gs, ga in zip(vals, got_s, got_a):
+                    if not (gs == edge and ga == edge):
+                        run.fail_input("clamp", {"ice": name, "params": [ice.n0, ice.k, ice.a, [lo, hi], ice._index_above, ice._index_below],
+                                                 "n": v}, observed={"scalar": gs, "array": ga}, expected=edge,
+                                       what="depth_with_index(%r) (index %s) is not clamped to %r" % (v, what, edge))
+
+
+def search_layered(run):
+    """LayeredIce: depths above the stack have no layer (ValueError) and get the stack's index_above; depths at or
+    below the bottom get index_below; inside, the index is the containing layer's"""
+    from pyrex.ice_model import UniformIce
+    from pyrex.custom.layered_ice import LayeredIce
+    for rep in range(run.scale(3, 20)):
+        b = sorted({0.0} | {round(-run.rng.uniform(20, 1500), 1) for _ in range(run.rng.randint(1, 3))}, reverse=True)
+        layers = [UniformIce(index=1.3 + 0.1 * i, valid_range=(b[i + 1], b[i]),
+                             index_above=run.rng.choice([None, 1.05]), index_below=run.rng.choice([None, 1.95]))
+                  for i in range(len(b) - 1)]
+        ia = run.rng.choice([1, 1.0003, None])
+        li = LayeredIce(layers, index_above=ia)
+        run.case(("layered-oracle", tuple(b), ia))
+        z = run.rng.uniform(0.1, 50)
+        try:
+            li.layer_at_depth(z)
+            got = "a layer"
+        except ValueError:
+            got = None
+        exp_above = li.layers[0].index(li.layers[0].valid_range[1]) if ia is None else ia
+        if got is not None or float(li.index(z)) != float(exp_above):
+            run.fail_input("layered-above", {"bounds": b, "index_above": ia, "z": z,
+                                             "layer_above": [l._index_above for l in li.layers]},
+                           observed={"layer_at_depth": got, "index": float(li.index(z))}, expected=float(exp_above),
+                           what="depth above the layer stack is dispatched to a layer / does not get the stack's index_above")
+        for i, l in enumerate(li.layers):
+            zi = 0.5 * (l.valid_range[0] + l.valid_range[1])
+            if li.layer_at_depth(zi) is not l or float(li.index(zi)) != float(l.n):
+                run.fail_input("layered-inside", {"bounds": b, "z": zi}, observed=float(li.index(zi)), expected=float(l.n),
+                               what="depth inside layer %d is not dispatched to it" % i)
 
 
 def search_atten(run):
@@ -282,6 +342,14 @@ def replay(run, data):
                np.shape(ice.attenuation_length(za, fa[0]))]
         if shp != [(len(za), len(fa)), (len(fa),), (len(za),)]:
             run.fail_input(kind, inp, observed=[list(x) for x in shp], what="attenuation_length shapes %s" % shp)
+    elif kind == "clamp":
+        ice = _ice_named(inp["ice"], inp.get("params"))
+        lo, hi = ice.valid_range
+        v = inp["n"]
+        edge = lo if v > float(ice.index(lo)) else hi
+        with np.errstate(all="ignore"):
+            gs, ga = float(ice.depth_with_index(v)), float(ice.depth_with_index(np.array([v]))[0])
+        if not (gs == edge and ga == edge):
+            run.fail_input(kind, inp, observed={"scalar": gs, "array": ga}, expected=edge, what="depth_with_index not clamped")
     else:
         search(run, True)
-        search_atten(run)
